@@ -1,14 +1,4 @@
 // ----- ghost view of the lowering context `Linearizer` (DESIGN §5 C01): what an assignment must satisfy -----
-// a queued source constraint holds at env (a bare logic assertion = its expression is truthy)
-pub open spec fn c_holds(c: Constraint, env: Env) -> bool {
-    if c.is_logic_assertion {
-        sem(c.lhs, env) matches Some(l) && truthy(l)
-    } else {
-        match (sem(c.lhs, env), sem(c.rhs, env)) { (Some(l), Some(r)) => cmp_sem(c.constraint_type, l, r), _ => false }
-    }
-}
-// every numeric literal of a queued constraint is finite (C08: no NaN / infinity reaches the linear model)
-pub open spec fn c_fin(c: Constraint) -> bool { exp_fin(c.lhs) && exp_fin(c.rhs) }
 // structural invariant of the context
 #[verifier::opaque]
 pub open spec fn lz_inv(l: Linearizer) -> bool {
